@@ -229,8 +229,22 @@ example : fmtInt (-1444) = [45, 49, 52, 52, 52] ∧ fmtNat 18446744073709551615 
 example : signedDecVal (fmtInt (-(2 ^ 63))) = -(2 ^ 63) :=
   C15_ints.2.2 _ (by decide)
 
+/-- The flat-document instance of `C15_lexemes` (full statement below): root-level `key value`
+pairs written with `write_unquoted` and implicit `=` come out as exactly `k=v` lines separated
+by one `\n`, for every indent configuration (no indentation at depth 0, no trailing newline,
+`=` exactly once per pair).  Partial: only flat documents of unquoted scalars. -/
+theorem C15_lexemes_partial (kvs : List (Bytes × Bytes)) (c : UInt8) (f : Nat) :
+    (run (flatCalls kvs) (State.init c f)).1.out = flatLines kvs true := by
+  have := run_flat kvs (State.init c f) rfl rfl
+  simpa [State.init] using this
+
+example : (run (flatCalls [([104, 101, 108, 108, 111], [119, 111, 114, 108, 100]), ([102, 111, 111], [98, 97, 114])])
+    (State.init 32 2)).1.out =
+    [104, 101, 108, 108, 111, 61, 119, 111, 114, 108, 100, 10, 102, 111, 111, 61, 98, 97, 114] := by
+  decide +kernel
+
 /-
-Growth theorem, NOT proved (full statement kept):
+Growth theorem, NOT proved in general (full statement kept; `C15_lexemes_partial` is its flat instance):
 
   theorem C15_lexemes (cs : List Call) (c : UInt8) (f : Nat) (h : WellFormedCalls cs) :
       TextLex (run cs (State.init c f)).1.out = lexemesOf cs
